@@ -1,7 +1,7 @@
 SPECIFICATION MCSpec
 CONSTANTS Keys = {1, 2, 3, 4}
           Vals = {1, 2}
-          Maxes = {0, 1, 2, 3}
+          Maxes <- MaxesSmall
           MaxVal = 2
           IsSet = FALSE
           None <- NoneZero
@@ -10,6 +10,6 @@ CONSTANTS Keys = {1, 2, 3, 4}
           EK = 1
 VIEW View
 ACTION_CONSTRAINT DumpT
-INVARIANTS Bounded NoDup DomOK SetOK RefuseOK
-PROPERTIES FirstAtHead LastAtTail PlainAppends PlainKeeps UpdateKeepsKeys OthersKeepOrder EvictOpposite NoOverNeverEvicts SortPermutes RemoveExact PutThenGet LRUMoves NoneIsInert
+INVARIANTS NoDup DomOK SetOK RefuseOK
+PROPERTIES FirstAtHead LastAtTail PlainAppends PlainKeeps UpdateKeepsKeys OthersKeepOrder EvictOpposite NoOverNeverEvicts SortPermutes RemoveExact PutThenGet LRUMoves NoneIsInert LazyBoundP SetMaxInert OnlyNewKeyEvicts NoOverDrops
 CHECK_DEADLOCK FALSE
